@@ -365,6 +365,7 @@ type Frame struct {
 	rets   []retInfo
 	names  map[string][]nameBinding // source variable name -> bindings
 	renamed map[string]string       // contract name -> current name of a renamed local
+	assertFired map[string]bool
 	old    *State
 	env0   map[string]Val // logical names of the contract (params, ghosts)
 	ord    []*ssa.BasicBlock
@@ -1199,6 +1200,7 @@ func (fr *Frame) execBlock(b *ssa.BasicBlock, st *State) {
 	c := fr.c
 	fr.curBlock = b
 	for _, instr := range b.Instrs {
+		fr.assertAtClauses(instr, b, st)
 		switch in := instr.(type) {
 		case *ssa.Phi, *ssa.DebugRef:
 			continue
@@ -2264,4 +2266,80 @@ func (fr *Frame) atReturnClauses(in *ssa.Return, b *ssa.BasicBlock, st *State, v
 		g := c.evalBool(env, cl.Expr)
 		c.oblige(st, "post", cl.Label, cl.Props, g, in.Pos(), fmt.Sprintf("at return statement %d: %s", ord, cl.Src))
 	}
+}
+
+// assertAtClauses: `assert at "text" [label] expr` - an intermediate assertion that
+// must hold just before the first instruction of the source line containing the
+// given text (the anchor must match exactly one line of the function). pre(x) is
+// the value of x at the head of the innermost enclosing loop.
+func (fr *Frame) assertAtClauses(instr ssa.Instruction, b *ssa.BasicBlock, st *State) {
+	c := fr.c
+	if !fr.top || fr.fc == nil || c.specMode > 0 || !fr.fc.HasAssertAt {
+		return
+	}
+	if _, isDbg := instr.(*ssa.DebugRef); isDbg {
+		return
+	}
+	if _, isPhi := instr.(*ssa.Phi); isPhi {
+		return
+	}
+	pos := instr.Pos()
+	if !pos.IsValid() {
+		return
+	}
+	p := fr.fn.Prog.Fset.Position(pos)
+	line := sourceLine(p.Filename, p.Line)
+	if line == "" {
+		return
+	}
+	for _, cl := range fr.fc.Clauses {
+		if cl.Kind != "assertat" || !strings.Contains(line, cl.Anchor) {
+			continue
+		}
+		key := fmt.Sprintf("%p|%d", cl, p.Line)
+		if fr.assertFired == nil {
+			fr.assertFired = map[string]bool{}
+		}
+		if fr.assertFired[key] {
+			continue
+		}
+		fr.assertFired[key] = true
+		env := fr.envAt(b, st, nil)
+		env.atLatch = true
+		for k, in2 := range b.Instrs {
+			if in2 == instr {
+				env.atIdx = k
+			}
+		}
+		if env.atIdx == 0 {
+			env.atIdx = -1 // first instruction: no binding of this block counts
+		}
+		if li := fr.inLoop[b]; li != nil && li.headState != nil {
+			env.pre = li.headState
+			env.preBlk = li.header
+		}
+		g := c.evalBool(env, cl.Expr)
+		c.oblige(st, "assert", cl.Label, cl.Props, g, pos, fmt.Sprintf("before %q: %s", cl.Anchor, cl.Src))
+		c.assume(st.reach, g)
+	}
+}
+
+var sourceLines = map[string][]string{}
+var sourceLinesMu sync.Mutex
+
+func sourceLine(file string, line int) string {
+	sourceLinesMu.Lock()
+	defer sourceLinesMu.Unlock()
+	ls, ok := sourceLines[file]
+	if !ok {
+		b, err := os.ReadFile(file)
+		if err == nil {
+			ls = strings.Split(string(b), "\n")
+		}
+		sourceLines[file] = ls
+	}
+	if line-1 < 0 || line-1 >= len(ls) {
+		return ""
+	}
+	return ls[line-1]
 }
